@@ -254,6 +254,10 @@ def run(ctx, widen=False):
                 tg = [b for b in NAMES + ["base1", "base2"] if b != a and rng.random() < 0.4]
                 if tg:
                     dct[a] = {b: rng.choice(WEIGHTS) for b in tg}
+        # an entry may also decompose a resource into NOTHING (a "free" resource): `{"clifford": {}}`
+        for a in ns:
+            if a not in dct and rng.random() < 0.2:
+                dct[a] = {}
         if not dct:
             continue
         subsets = [[(r, rng.choice(types)) for r in NAMES + ["base1", "untouched"] if rng.random() < 0.6] for _ in range(3)]
